@@ -106,6 +106,8 @@ pub struct Arena {
     pub vars: Vec<VarInfo>,
     /// number of nonlinear nodes (symbolic×symbolic product, symbolic divisor)
     pub nl: usize,
+    /// number of floor-division / remainder nodes (the real relaxation is worth trying)
+    pub ndiv: usize,
     /// interval bounds per integer node, from the declared ranges of the variables (None = unknown)
     bounds: Vec<(Option<I>, Option<I>)>,
     var_ranges: HashMap<String, (I, I)>,
@@ -120,6 +122,7 @@ impl Arena {
             bintern: HashMap::new(),
             vars: vec![],
             nl: 0,
+            ndiv: 0,
             bounds: vec![],
             var_ranges: HashMap::new(),
         };
@@ -139,6 +142,9 @@ impl Arena {
         let t = Tm(self.nodes.len() as u32);
         if self.is_nl(&n) {
             self.nl += 1;
+        }
+        if matches!(n, Node::Div(..) | Node::Rem(..)) {
+            self.ndiv += 1;
         }
         let b = self.compute_bounds(&n);
         self.bounds.push(b);
@@ -337,6 +343,7 @@ struct Ctx {
     pos: usize,
     solver: Option<Solver>,
     solver_a: Option<Solver>,
+    solver_r: Option<Solver>,
     pc: Vec<Bm>,
     pc_unchecked: bool,
     stats: Stats,
@@ -350,7 +357,7 @@ struct Ctx {
 
 thread_local! {
     static CTX: RefCell<Ctx> = RefCell::new(Ctx {
-        arena: Arena::new(), trail: vec![], pos: 0, solver: None, solver_a: None, pc: vec![], pc_unchecked: false,
+        arena: Arena::new(), trail: vec![], pos: 0, solver: None, solver_a: None, solver_r: None, pc: vec![], pc_unchecked: false,
         stats: Stats::default(), picks: vec![], active: false, cfg: Config::default(), notes: vec![],
         donate: None, path_solver_discharged: 0,
     });
@@ -426,6 +433,9 @@ pub fn fresh(name: &str, lo: I, hi: I) -> Tm {
             s.declare_var(name, &lo, &hi);
         }
         if let Some(s) = c.solver_a.as_mut() {
+            s.declare_var(name, &lo, &hi);
+        }
+        if let Some(s) = c.solver_r.as_mut() {
             s.declare_var(name, &lo, &hi);
         }
         t
@@ -600,6 +610,15 @@ pub fn div(a: Tm, b: Tm) -> Tm {
         if a == b {
             // x / x with x != 0 guaranteed by the caller
             return T_ONE;
+        }
+        // (x * y) / x → y   (x != 0 guaranteed by the caller)
+        if let Node::Mul(p, q) = ar.nodes[a.0 as usize].clone() {
+            if p == b {
+                return q;
+            }
+            if q == b {
+                return p;
+            }
         }
         ar.mk(Node::Div(a, b))
     })
@@ -1000,6 +1019,9 @@ struct Solver {
     /// abstract mode: nonlinear nodes become fresh integers constrained by linear lemmas
     /// (an over-approximation: unsat here is unsat in the exact semantics)
     abs: bool,
+    /// real relaxation: every term is a Real, floor division becomes a fresh real quotient q with
+    /// b*q <= a < b*q + b (integrality dropped: an over-approximation, only `unsat` is an answer)
+    real: bool,
     /// everything asserted/declared since the last reset (queries excluded): lets a query that the
     /// incremental core does not finish be re-posed to a fresh one-shot process (full preprocessing)
     script: String,
@@ -1008,7 +1030,7 @@ struct Solver {
 }
 
 impl Solver {
-    fn spawn(cmd: &[String], timeout_ms: u64, inc_timeout_ms: u64, abs: bool) -> Solver {
+    fn spawn(cmd: &[String], timeout_ms: u64, inc_timeout_ms: u64, abs: bool, real: bool) -> Solver {
         let mut child = Command::new(&cmd[0])
             .args(&cmd[1..])
             .stdin(Stdio::piped())
@@ -1026,7 +1048,7 @@ impl Solver {
                 .unwrap()
         });
         let is_z3 = cmd[0].contains("z3");
-        let mut s = Solver { child, stdin, stdout, tdef: vec![], bdef: vec![], log, is_z3, timeout_ms, abs, script: String::new(), cmd: cmd.to_vec(), inc_timeout_ms };
+        let mut s = Solver { child, stdin, stdout, tdef: vec![], bdef: vec![], log, is_z3, timeout_ms, abs, real, script: String::new(), cmd: cmd.to_vec(), inc_timeout_ms };
         s.prelude();
         s
     }
@@ -1059,8 +1081,9 @@ impl Solver {
     }
     fn declare_var(&mut self, name: &str, lo: &I, hi: &I) {
         let s = format!(
-            "(declare-const v_{n} Int)\n(assert (<= {lo} v_{n}))\n(assert (<= v_{n} {hi}))\n",
+            "(declare-const v_{n} {sort})\n(assert (<= {lo} v_{n}))\n(assert (<= v_{n} {hi}))\n",
             n = name,
+            sort = if self.real { "Real" } else { "Int" },
             lo = Self::num(lo),
             hi = Self::num(hi)
         );
@@ -1089,6 +1112,27 @@ impl Solver {
             return;
         }
         self.tdef[i] = true;
+        if self.real {
+            if let Node::Div(a, b) | Node::Rem(a, b) = &ar.nodes[i] {
+                let (a, b) = (*a, *b);
+                self.define_t(ar, a, out);
+                self.define_t(ar, b, out);
+                let (x, y) = (Self::tref(ar, a), Self::tref(ar, b));
+                let is_div = matches!(&ar.nodes[i], Node::Div(..));
+                let q = if is_div { format!("t{}", t.0) } else { format!("q{}", t.0) };
+                out.push_str(&format!("(declare-const {} Real)\n", q));
+                let body = format!("(and (<= (* {y} {q}) {x}) (< {x} (+ (* {y} {q}) {y})))", x = x, y = y, q = q);
+                if ar.cval(b).is_some() {
+                    out.push_str(&format!("(assert {})\n", body));
+                } else {
+                    out.push_str(&format!("(assert (=> (> {y} 0) {b}))\n", y = y, b = body));
+                }
+                if !is_div {
+                    out.push_str(&format!("(define-fun t{} () Real (- {} (* {} {})))\n", t.0, x, y, q));
+                }
+                return;
+            }
+        }
         if self.abs && ar.is_nl(&ar.nodes[i]) {
             let (a, b) = match &ar.nodes[i] {
                 Node::Mul(a, b) | Node::Div(a, b) | Node::Rem(a, b) => (*a, *b),
@@ -1152,7 +1196,7 @@ impl Solver {
                 format!("(ite {} {} {})", Self::bref(ar, *c), Self::tref(ar, *a), Self::tref(ar, *b))
             }
         };
-        out.push_str(&format!("(define-fun t{} () Int {})\n", t.0, body));
+        out.push_str(&format!("(define-fun t{} () {} {})\n", t.0, if self.real { "Real" } else { "Int" }, body));
     }
     fn define_b(&mut self, ar: &Arena, b: Bm, out: &mut String) {
         let i = b.0 as usize;
@@ -1295,7 +1339,7 @@ impl Solver {
         if let Ok(d) = std::env::var("SYMX_DUMP") {
             static N: AtomicU64 = AtomicU64::new(0);
             let n = N.fetch_add(1, AO::SeqCst);
-            let _ = std::fs::write(format!("{}/q{}{}.smt2", d, n, if self.abs { "a" } else { "e" }), &text);
+            let _ = std::fs::write(format!("{}/q{}{}.smt2", d, n, if self.abs { "a" } else if self.real { "r" } else { "e" }), &text);
         }
         let child = Command::new(&self.cmd[0])
             .args(&self.cmd[1..])
@@ -1375,24 +1419,29 @@ fn parse_model(s: &str) -> Vec<(String, String)> {
 // the path oracle
 
 fn solver_check(c: &mut Ctx, extra: Option<Bm>, model: Option<&mut Vec<(String, String)>>) -> Sat {
-    if c.arena.nl > 0 {
-        if abstract_check(c, extra) == Sat::Unsat {
-            return Sat::Unsat;
-        }
+    if pre_unsat(c, extra) {
+        return Sat::Unsat;
     }
     exact_check(c, extra, model)
 }
 
-/// over-approximation: Unsat is definitive, anything else is not an answer
-fn abstract_check(c: &mut Ctx, extra: Option<Bm>) -> Sat {
-    let t0 = Instant::now();
-    let Ctx { arena, solver_a, stats, .. } = c;
-    let s = solver_a.as_mut().expect("solver");
-    let mut r = s.check(arena, extra, None);
-    if r == Sat::Unknown {
-        r = s.oneshot(arena, extra, None);
-        stats.oneshots += 1;
+/// the two over-approximations (linear abstraction of products, real relaxation of floor division):
+/// `true` means unsat in the exact semantics as well; `false` is not an answer
+fn pre_unsat(c: &mut Ctx, extra: Option<Bm>) -> bool {
+    if c.arena.nl > 0 && abstract_check(c, extra, false) == Sat::Unsat {
+        return true;
     }
+    if c.arena.ndiv > 0 && abstract_check(c, extra, true) == Sat::Unsat {
+        return true;
+    }
+    false
+}
+
+fn abstract_check(c: &mut Ctx, extra: Option<Bm>, real: bool) -> Sat {
+    let t0 = Instant::now();
+    let Ctx { arena, solver_a, solver_r, stats, .. } = c;
+    let s = if real { solver_r.as_mut().expect("solver") } else { solver_a.as_mut().expect("solver") };
+    let r = s.check(arena, extra, None);
     stats.queries_abstract += 1;
     if r == Sat::Unsat {
         stats.abstract_unsat += 1;
@@ -1426,9 +1475,10 @@ fn push_pc(c: &mut Ctx, b: Bm) {
         return;
     }
     c.pc.push(b);
-    let Ctx { arena, solver, solver_a, .. } = c;
+    let Ctx { arena, solver, solver_a, solver_r, .. } = c;
     solver.as_mut().expect("solver").assert(arena, b);
     solver_a.as_mut().expect("solver").assert(arena, b);
+    solver_r.as_mut().expect("solver").assert(arena, b);
 }
 
 /// Which way does the path go on `cond`?  Forks when both sides are feasible.
@@ -1466,23 +1516,19 @@ pub fn decide(cond: Bm) -> bool {
                 _ => panic!("symx: trail mismatch (expected Bool) — nondeterministic harness?"),
             }
         }
-        let (st, sf) = if c.arena.nl > 0 {
-            // the linear abstraction settles most forced decisions without touching the exact solver
-            let at = abstract_check(c, Some(cond));
-            let af = if at == Sat::Unsat { Sat::Sat } else { abstract_check(c, Some(ncond)) };
-            if at == Sat::Unsat {
-                (Sat::Unsat, if af == Sat::Unsat { Sat::Unsat } else { Sat::Sat })
-            } else if af == Sat::Unsat {
+        let (st, sf) = {
+            // the over-approximations settle most forced decisions without touching the exact solver
+            let ut = pre_unsat(c, Some(cond));
+            let uf = if ut { false } else { pre_unsat(c, Some(ncond)) };
+            if ut {
+                (Sat::Unsat, Sat::Sat)
+            } else if uf {
                 (Sat::Sat, Sat::Unsat)
             } else {
                 let st = exact_check(c, Some(cond), None);
                 let sf = if st == Sat::Unsat { Sat::Sat } else { exact_check(c, Some(ncond), None) };
                 (st, sf)
             }
-        } else {
-            let st = exact_check(c, Some(cond), None);
-            let sf = if st == Sat::Unsat { Sat::Sat } else { exact_check(c, Some(ncond), None) };
-            (st, sf)
         };
         if st == Sat::Unknown || sf == Sat::Unknown {
             c.stats.unknown_branches += 1;
@@ -1885,11 +1931,13 @@ fn run_one_path(f: &(dyn Fn() + Sync)) {
         c.path_solver_discharged = 0;
         c.active = true;
         if c.solver.is_none() {
-            c.solver = Some(Solver::spawn(&c.cfg.solver_cmd, c.cfg.timeout_ms, c.cfg.inc_timeout_ms, false));
-            c.solver_a = Some(Solver::spawn(&c.cfg.solver_cmd, c.cfg.timeout_ms, c.cfg.inc_timeout_ms, true));
+            c.solver = Some(Solver::spawn(&c.cfg.solver_cmd, c.cfg.timeout_ms, c.cfg.inc_timeout_ms, false, false));
+            c.solver_a = Some(Solver::spawn(&c.cfg.solver_cmd, c.cfg.timeout_ms, c.cfg.inc_timeout_ms, true, false));
+            c.solver_r = Some(Solver::spawn(&c.cfg.solver_cmd, c.cfg.timeout_ms, c.cfg.inc_timeout_ms, false, true));
         } else {
             c.solver.as_mut().unwrap().reset();
             c.solver_a.as_mut().unwrap().reset();
+            c.solver_r.as_mut().unwrap().reset();
         }
     });
     let r = std::panic::catch_unwind(std::panic::AssertUnwindSafe(|| f()));
@@ -1975,6 +2023,7 @@ pub fn explore(cfg: &Config, f: &(dyn Fn() + Sync)) -> Stats {
                         c.stats = Stats::default();
                         c.solver = None;
                         c.solver_a = None;
+                        c.solver_r = None;
                     });
                     let mut idle_marked = false;
                     loop {
@@ -2017,6 +2066,7 @@ pub fn explore(cfg: &Config, f: &(dyn Fn() + Sync)) -> Stats {
                     with(|c| {
                         c.solver = None;
                         c.solver_a = None;
+                        c.solver_r = None;
                         total.lock().unwrap().merge(&c.stats);
                         c.stats = Stats::default();
                     });
